@@ -54,6 +54,11 @@ CoeffsFor(M, lab, S) ==
   LET rs == RowsOfSet(lab, S)
       c == CHOOSE c \in [1..Len(rs) -> F] : VecMat(c, SubRows(M, rs)) = E0(NCols(M))
   IN [i \in S |-> LET own == RowsOf(lab, i) IN [k \in 1..Len(own) |-> c[CHOOSE a \in 1..Len(rs) : rs[a] = own[k]]]]
+\* evaluated once per (programme, quorum): TLC caches constant definitions
+QuorumTab == [m \in MSPs |-> [S \in (SUBSET Holders(m.lab)) \ {{}} |->
+                IF SpansByRank(m.M, m.lab, S) THEN [ok |-> TRUE, c |-> CoeffsFor(m.M, m.lab, S)] ELSE [ok |-> FALSE]]]
+Accepts(k) == QuorumTab[[M |-> k.M, lab |-> k.lab]][k.S].ok
+Coeffs(k) == QuorumTab[[M |-> k.M, lab |-> k.lab]][k.S].c
 \* pairwise-seed zero share: party i adds the seeds shared with larger ids and subtracts those with smaller ids
 Pairs(S) == {p \in S \X S : p[1] < p[2]}
 ZeroShare(S, seed, i) == SumOver([p \in Pairs(S) |-> IF p[1] = i THEN seed[p] ELSE IF p[2] = i THEN Neg(seed[p]) ELSE 0], Pairs(S))
@@ -65,13 +70,13 @@ Init == /\ st = "dealt"
              /\ key = [M |-> m.M, lab |-> m.lab, r |-> r, S |-> S]
         /\ add = Null /\ run = Null /\ out = Null
 
-Refuse == /\ st = "dealt" /\ ~SpansByRank(key.M, key.lab, key.S)
+Refuse == /\ st = "dealt" /\ ~Accepts(key)
           /\ st' = "refused" /\ UNCHANGED <<key, add, run, out>>
 
 Convert ==
-  /\ st = "dealt" /\ Scheme # "bls" /\ SpansByRank(key.M, key.lab, key.S)
+  /\ st = "dealt" /\ Scheme # "bls" /\ Accepts(key)
   /\ \E seed \in [Pairs(key.S) -> SeedS] :
-       LET c == CoeffsFor(key.M, key.lab, key.S)
+       LET c == Coeffs(key)
            sh == SharesOf(key.M, key.lab, key.r)
            z == [i \in key.S |-> ZeroShare(key.S, seed, i)]
        IN add' = [S |-> key.S, x |-> key.r[1], z |-> z,
@@ -185,10 +190,10 @@ L17NoWrap == (Scheme = "lindell17" /\ st = "signed" /\ ~out.refused) =>
 \* sigma_i[k] = sh_i[k] H(m) per MSP row; the aggregator checks every component against pkShare_i[k] (pairing equation in the
 \* exponent), accepts the quorum by the span programme and reconstructs in the exponent
 BlsSign ==
-  /\ Scheme = "bls" /\ st = "dealt" /\ SpansByRank(key.M, key.lab, key.S)
+  /\ Scheme = "bls" /\ st = "dealt" /\ Accepts(key)
   /\ \E h \in MsgS \ {0} :
        LET sh == SharesOf(key.M, key.lab, key.r)
-           c == CoeffsFor(key.M, key.lab, key.S)
+           c == Coeffs(key)
            sig == [i \in key.S |-> [k \in 1..Len(sh[i]) |-> Mul(sh[i][k], h)]]
            partialOK == \A i \in key.S : \A k \in 1..Len(sh[i]) : sig[i][k] = Mul(h, ShareOf(key.M, key.lab, key.r, i)[k])
            anyIdentity == \E i \in key.S : \E k \in 1..Len(sh[i]) : sig[i][k] = 0          \* Validate refuses identity components
@@ -235,15 +240,15 @@ SchnorrOut == (Scheme = "schnorr" /\ st = "signed" /\ ~out.refused) =>
 AdditiveSumsToSecret == st = "conv" => /\ SumOver(add.a, add.S) = add.x
                                        /\ SumOver(add.z, add.S) = 0
 RefusedIffUnqualified == st = "refused" => ~SpansByRank(key.M, key.lab, key.S)
-\* a qualified quorum is never stuck at "dealt" (Convert / BlsSign enabled), an unqualified one can only be refused
-Progress == st = "dealt" =>
-  /\ SpansByRank(key.M, key.lab, key.S) <=> (ENABLED Convert \/ ENABLED BlsSign)
-  /\ ~SpansByRank(key.M, key.lab, key.S) <=> ENABLED Refuse
+\* a qualified quorum is never stuck at "dealt" and an unqualified one can only be refused: the configurations check deadlock,
+\* Done being the only step of a finished run
+Done == st \in {"signed", "refused"} /\ UNCHANGED vars
 
 Next == \/ Refuse \/ Convert
         \/ DklsR1 \/ DklsMul \/ DklsSign
         \/ L17Sign
         \/ BlsSign
         \/ SchnorrSign("bip340") \/ SchnorrSign("mina") \/ SchnorrSign("plain")
+        \/ Done
 Spec == Init /\ [][Next]_vars
 =============================================================================
